@@ -287,6 +287,8 @@ qb_ipcs_response_send(struct qb_ipcs_connection *c, const void *data,
 
 	if (c == NULL) {
 		return -EINVAL;
+	} else if (size > c->response.max_msg_size) {
+		return -EMSGSIZE;
 	}
 	qb_ipcs_connection_ref(c);
 	res = c->service->funcs.send(&c->response, data, size);
@@ -307,6 +309,22 @@ qb_ipcs_response_send(struct qb_ipcs_connection *c, const void *data,
 	return res;
 }
 
+/* a message the client has agreed to take: its receive buffer is that big */
+static int32_t
+_iov_fits_(const struct iovec *iov, size_t iov_len, uint32_t max_msg_size)
+{
+	size_t total = 0;
+	size_t i;
+
+	for (i = 0; i < iov_len; i++) {
+		if (iov[i].iov_len > max_msg_size - total) {
+			return QB_FALSE;
+		}
+		total += iov[i].iov_len;
+	}
+	return QB_TRUE;
+}
+
 ssize_t
 qb_ipcs_response_sendv(struct qb_ipcs_connection * c, const struct iovec * iov,
 		       size_t iov_len)
@@ -315,6 +333,8 @@ qb_ipcs_response_sendv(struct qb_ipcs_connection * c, const struct iovec * iov,
 
 	if (c == NULL) {
 		return -EINVAL;
+	} else if (!_iov_fits_(iov, iov_len, c->response.max_msg_size)) {
+		return -EMSGSIZE;
 	}
 	qb_ipcs_connection_ref(c);
 	res = c->service->funcs.sendv(&c->response, iov, iov_len);
@@ -445,6 +465,8 @@ qb_ipcs_event_sendv(struct qb_ipcs_connection * c,
 
 	if (c == NULL) {
 		return -EINVAL;
+	} else if (!_iov_fits_(iov, iov_len, c->event.max_msg_size)) {
+		return -EMSGSIZE;
 	}
 	qb_ipcs_connection_ref(c);
 
